@@ -4,8 +4,12 @@ import SpecterModel.C14.Gen
 
 Parametric in the registry (`List Entry`); `Props.lean` instantiates it with the GENERATED `Gen.C14.registry`.
 
-origin error value  --rpc.WrapError*-->  twirp error (code, msg)  --wire-->  client twirp error (code, msg; the Go
-identity of the cause is gone)  --chord.ErrorMapper-->  caller's error value  --chord.ErrorIsRetryable-->  Bool
+origin error value  --rpc.WrapError*-->  twirp error (code, msg, meta kv)  --wire-->  client twirp error (code, msg,
+meta; the Go identity of the cause is gone)  --chord.ErrorMapper-->  caller's error value  --chord.ErrorIsRetryable-->  Bool
+
+The KV / lease handlers wrap with `rpc.WrapErrorKV(key, err)`, `key` being the request's key / prefix / lease name: a
+byte string CHOSEN BY THE CALLER, of any length. The model takes it as a parameter: it is echoed in the meta entry
+"kv" and has NO influence on the code or on the message (`twirp.NewError(code, err.Error())`), whatever its length.
 -/
 namespace Specter.C14
 
@@ -21,7 +25,7 @@ inductive GoErr where
   | reg (e : Entry)                       -- a known sentinel itself (pointer identity)
   | opaque (msg : String)                 -- any other error, `Error() = msg`, unwraps to nothing
   | wrap (msg : String) (inner : GoErr)   -- fmt.Errorf("…%w", inner) with `Error() = msg`
-  | twirp (code msg : String)             -- a twirp error as decoded by the client (no cause)
+  | twirp (code msg : String) (kv : Option String)  -- a twirp error as decoded by the client (no cause; meta "kv")
   deriving DecidableEq, Repr
 
 /-- `Error()` -/
@@ -29,7 +33,7 @@ def GoErr.msg : GoErr → String
   | .reg e => e.msg
   | .opaque m => m
   | .wrap m _ => m
-  | .twirp c m => "twirp error " ++ c ++ ": " ++ m
+  | .twirp c m _ => "twirp error " ++ c ++ ": " ++ m
 
 /-- `ErrorIsRetryable`: some element of `retryableErrs` (the retryable known sentinels) is reached by
 `errors.Is` (identity along the unwrap chain). `known` = external sentinels ++ registry. -/
@@ -37,14 +41,14 @@ def retryable (known : List Entry) : GoErr → Bool
   | .reg e => known.contains e && e.retryable
   | .opaque _ => false
   | .wrap _ inner => retryable known inner
-  | .twirp _ _ => false
+  | .twirp _ _ _ => false
 
 /-- `errors.Is(x, e)` for a known sentinel `e`: pointer identity somewhere along the unwrap chain -/
 def GoErr.is : GoErr → Entry → Bool
   | .reg e', e => decide (e' = e)
   | .opaque _, _ => false
   | .wrap _ inner, e => inner.is e
-  | .twirp _ _, _ => false
+  | .twirp _ _ _, _ => false
 
 /-- a TEXT-PRESERVING wrapper chain around a known sentinel: `fmt.Errorf("%w", e)`, `errors.Join(e)`, a wrapper type
 whose `Error()` is the inner one's, nested `n` times — `Error()` is the sentinel's message, `errors.Is(·, e)` holds -/
@@ -61,23 +65,27 @@ def retryableEq (known : List Entry) : GoErr → Bool
 structure Wire where
   code : String
   msg : String
+  kv : Option String := none   -- meta entry "kv" (absent unless the handler wraps with WrapErrorKV)
   deriving DecidableEq, Repr
 
-/-- `rpc.WrapError` / `rpc.WrapErrorKV` (same code selection), or a raw return (twirp then wraps any
-non-twirp error as `internal`) -/
-def wrapErr (known : List Entry) (how : String) (x : GoErr) : Wire :=
+/-- `rpc.WrapError(err)` / `rpc.WrapErrorKV(key, err)` (same code selection, the WHOLE `err.Error()` as the message,
+`key` only in the meta entry "kv"), or a raw return (twirp then wraps any non-twirp error as `internal`).
+`key` = the request's key / prefix / lease name (ignored by the handlers that do not wrap with WrapErrorKV). -/
+def wrapErr (known : List Entry) (how : String) (key : String) (x : GoErr) : Wire :=
   if how = "raw" then { code := "internal", msg := x.msg }
-  else { code := if retryable known x then "failed_precondition" else "internal", msg := x.msg }
+  else { code := if retryable known x then "failed_precondition" else "internal", msg := x.msg,
+         kv := if how = "WrapErrorKV" then some key else none }
 
 /-- `ErrorMapper` on the client's twirp error: `errorStrMap[Msg()]`; `mapped` = the entries of that Go map in
 insertion order (its initial literal, then the registry; a later entry with the same message overwrites) -/
 def mapper (mapped : List Entry) (w : Wire) : GoErr :=
   match mapped.reverse.find? (fun e => e.msg == w.msg) with
   | some e => .reg e
-  | none => .twirp w.code w.msg
+  | none => .twirp w.code w.msg w.kv
 
 /-- what the remote caller ends up with -/
-def acrossRPC (known mapped : List Entry) (how : String) (x : GoErr) : GoErr := mapper mapped (wrapErr known how x)
+def acrossRPC (known mapped : List Entry) (how : String) (key : String) (x : GoErr) : GoErr :=
+  mapper mapped (wrapErr known how key x)
 
 /-- instantiation with the generated facts -/
 def registry : List Entry := Gen.C14.registry
